@@ -20,7 +20,9 @@ FN_NAMES = {1: "convert_protein_position_to_dna", 2: "Feature.get_sub_location_f
             7: "CDSFeature.from_biopython(codon_start) + translation + sub-location + to_biopython",
             8: "Record.from_biopython -> CDS (codon_start) + translation + sub-location + Record.to_biopython + reload",
             9: "Prepeptide.to_biopython -> Prepeptide.from_biopython (build_location_from_others) -> to_biopython",
-            20: "build_location_from_others"}
+            20: "build_location_from_others",
+            24: "Prepeptide.to_biopython (leader/core/tail locations; location longer than the sections)",
+            29: "Prepeptide.to_biopython -> Prepeptide.from_biopython -> to_biopython (location longer than the sections)"}
 STRAND_CODE = {1: 1, -1: -1, 0: 0, None: 2}
 CODE_STRAND = {v: k for k, v in STRAND_CODE.items()}
 BASES = "ACGT"
@@ -29,9 +31,11 @@ BASES = "ACGT"
 CLASS_SPANNING = "origin_spanning_gene_sublocation"
 CLASS_OVERLAP = "overlapping_exons_sublocation"
 CLASS_TTA_SPLIT = "tta_codon_split_by_intron"
+CLASS_LAST = "prepeptide_last_section_holds_stop_codon"
 # repaired classes (status "fixed": nothing is suppressed; a failing case of the class is a VIOLATION that names it)
 CLASS_TTA = "tta_multi_exon"
 CLASS_CODON = "origin_spanning_codon_start"
+CLASS_TAIL_SHIFT = "prepeptide_tail_boundary_shifted_by_stop_codon"
 WHAT = {
     CLASS_SPANNING: ("sub-location of an origin-spanning gene is built by walking the exons in coordinate order instead "
                      "of transcription order: wrong nucleotides (or ValueError) for protein ranges of a gene that spans "
@@ -50,6 +54,15 @@ WHAT = {
                       "feature of three bases from the codon's first base on, so it runs into the intron and does not cover "
                       "the codon's other bases (TTAResults.new_feature_from_other / new_feature_from_basics: a marker is "
                       "(start, strand))"),
+    CLASS_LAST: ("prepeptide on a location that holds more codons than leader + core + tail (the RiPP modules hand over the "
+                 "gene's location, which ends with the stop codon, and sections that make up the gene's translation): the LAST "
+                 "section written by Prepeptide.to_biopython (the tail if there is one, else the core) runs to the end of the "
+                 "location, so it holds the stop codon as well - three bases more than its residues encode; every other "
+                 "section is exact (kept so that Prepeptide.from_biopython, which rebuilds the location from the written "
+                 "sections, gives back the same location)"),
+    CLASS_TAIL_SHIFT: ("prepeptide on a location that ends with the stop codon, with a tail: Prepeptide.to_biopython counted "
+                       "the tail back from the end of the location, so the core held the tail's first codon as well and the "
+                       "tail started one residue late"),
 }
 
 
@@ -116,12 +129,8 @@ def impl(fn, args):
         out += result(lambda: enc_pyloc(feature.get_sub_location_from_protein_coordinates(start, end)))
         out += result(lambda: enc_pyloc(feature.to_biopython()[0].location))
         return out
-    if fn == 4:
-        from antismash.common.secmet.features import Prepeptide
-        parts, leader_len, tail_len = args
-        loc = mk_loc(parts)
-        core_len = max(1, len(loc) // 3 - leader_len - tail_len)
-        pre = Prepeptide(loc, "lanthipeptide", "A" * core_len, "tag", "tool", leader="M" * leader_len, tail="C" * tail_len)
+    if fn in (4, 24):
+        pre = make_prepeptide(*args)
 
         def locations():
             feats = pre.to_biopython()
@@ -145,17 +154,35 @@ def impl(fn, args):
     if fn in (7, 8):
         parts, codon_start, bases, _table, start, end, circular = args
         return impl_load(fn, parts, codon_start, bases, start, end, circular)
-    if fn == 9:
-        from antismash.common.secmet.features import Prepeptide
-        parts, leader_len, tail_len = args
-        loc = mk_loc(parts)
-        core_len = max(1, len(loc) // 3 - leader_len - tail_len)
-        pre = Prepeptide(loc, "lanthipeptide", "A" * core_len, "tag", "tool", leader="M" * leader_len, tail="C" * tail_len)
-        return impl_reread(pre)
+    if fn in (9, 29):
+        return impl_reread(make_prepeptide(*args))
     if fn == 20:
         (locs,) = args
         return result(lambda: enc_pyloc(L.build_location_from_others([mk_loc(parts) for parts in locs])))
     raise ValueError(fn)
+
+
+def make_prepeptide(parts, leader_len, tail_len, slack=0):
+    """ a prepeptide on the location whose sections leave `slack` codons of the location uncovered (slack 1: the location
+        ends with the stop codon, the sections are the translation); section_args() only hands out arguments for which
+        the core has at least one residue """
+    from antismash.common.secmet.features import Prepeptide
+    loc = mk_loc(parts)
+    core_len = len(loc) // 3 - leader_len - tail_len - slack
+    assert core_len >= 1, (parts, leader_len, tail_len, slack)
+    return Prepeptide(loc, "lanthipeptide", "A" * core_len, "tag", "tool", leader="M" * leader_len, tail="C" * tail_len)
+
+
+def section_args(base_fn, parts, total, leader_len, tail_len, slack):
+    """ -> (fn, args) for leader / tail lengths and a wanted slack: the core gets what is left but at least one residue
+        (Prepeptide refuses an empty core), so the slack actually realised may differ from the wanted one (it is negative
+        when leader + tail alone are longer than the location: the rejection paths); function base_fn (4 or 9) when the
+        sections fill the location's codons exactly, base_fn + 20 with the realised slack otherwise """
+    core_len = max(1, total - leader_len - tail_len - slack)
+    slack = total - leader_len - tail_len - core_len
+    if slack == 0:
+        return base_fn, (parts, leader_len, tail_len)
+    return base_fn + 20, (parts, leader_len, tail_len, slack)
 
 
 class ReloadMismatch(Exception):
@@ -241,6 +268,9 @@ def encode(fn, args):
     if fn in (4, 9):
         parts, leader_len, tail_len = args
         return enc_parts(parts) + [leader_len, tail_len]
+    if fn in (24, 29):
+        parts, leader_len, tail_len, slack = args
+        return enc_parts(parts) + [leader_len, tail_len, slack]
     if fn == 20:
         (locs,) = args
         return [len(locs)] + [x for parts in locs for x in enc_parts(parts)]
@@ -495,6 +525,26 @@ def plant_tta(rng, spec, table):
         remove_stops(Gene(gene["parts"], spec["n"], "plain", length), off, spec["bases"], table)
 
 
+def plant_stops(rng, spec):
+    """ writes a stop codon into the last codon of half of the genes (reading frame of the stored location): the gene's
+        location then holds one codon more than its translation, which is how genes normally are annotated - the RiPP
+        modules hand such a location to Prepeptide together with sections that make up the translation """
+    for gene in spec["genes"]:
+        if rng.random() < 0.5:
+            continue
+        off = gene["cs"] - 1 if gene["cs"] >= 2 else 0
+        coords = []
+        for s, e, st in gene["parts"]:
+            coords += [(i, st) for i in (range(e - 1, s - 1, -1) if st == -1 else range(s, e))]
+        coords = coords[off:]
+        last = 3 * (len(coords) // 3 - 1)
+        if last < 9:    # keep at least three residues
+            continue
+        for (i, st), base in zip(coords[last:last + 3], rng.choice([(3, 0, 0), (3, 0, 2), (3, 2, 0)])):
+            spec["bases"][i] = 3 - base if st == -1 else base
+        gene["stop"] = True
+
+
 def build_record(spec):
     """ the secmet Record with its CDS features, loaded the way input records are """
     from Bio.Seq import Seq
@@ -743,6 +793,7 @@ def caller_cases(rng, table, count):
         with_tta = rng.random() < 0.3
         if with_tta:
             plant_tta(rng, spec, table)
+        plant_stops(rng, spec)
         doc = record_doc(spec)
         annotations = []
         try:
@@ -777,8 +828,12 @@ def caller_cases(rng, table, count):
                 for feat in feats:
                     out += enc_pyloc(feat.location)
                 return out
-            cases.append((4, (stored_parts(cds), ll, tl), gene_obj(cds, spec), origin, result(sections)))
-            cases.append((9, (stored_parts(cds), ll, tl), gene_obj(cds, spec), dict(origin), impl_reread(pre)))
+            # the gene's location holds the stop codon beyond the translation the sections are cut from: slack 1
+            slack = len(cds.location) // 3 - len(pre.leader + pre.core + pre.tail)
+            origin["annotation"]["codons_of_the_location_beyond_the_sections"] = slack
+            fn, args = section_args(4, stored_parts(cds), len(cds.location) // 3, ll, tl, slack)
+            cases.append((fn, args, gene_obj(cds, spec), origin, result(sections)))
+            cases.append((fn + 5, args, gene_obj(cds, spec), dict(origin), impl_reread(pre)))
         for cds, offset, location in markers:
             origin = {"caller": CALLERS["tta_detect"], "gene": cds.get_name(), "record": doc,
                       "annotation": {"offset": offset, "location": str(location)}}
@@ -826,6 +881,12 @@ RULE = ("genes of 1-4 exons (introns 0-5 bases, exons cut anywhere incl. inside 
         "Prepeptide round trip (fn 9): Prepeptide.to_biopython -> Prepeptide.from_biopython (build_location_from_others) -> "
         "to_biopython on the same genes, section boundaries inside exons and (30%) on exon borders; build_location_from_others "
         "alone on 1-4 adjoining / separate, simple / compound locations in either order (fn 20). "
+        "Prepeptide sections (fn 4 / 9 and, with slack, fn 24 / 29): the slack = codons of the location beyond leader + core + "
+        "tail is drawn from {0, 1, 1, 2} (1 = the location ends with the stop codon, as the RiPP modules build prepeptides), "
+        "core of at least one residue; judged by the relaxed specification (every section exact, the last one may hold the "
+        "trailing codons: a failure is a counterexample) and the strict one (a failure with slack > 0 is the finding class "
+        "prepeptide_last_section_holds_stop_codon); in the records driven through the callers half of the genes end with a "
+        "stop codon, so that the RiPP converters hand Prepeptide a location one codon longer than the sections. "
         "CALLERS: 450 (quick) / 6000 (thorough) generated records of 2-5 neighbouring genes (both strands, 1-4 exons, introns 0-5, "
         "/codon_start 1-3 or absent, 25% circular with the last gene over the origin, frames stop-free), hits drawn from a pool of "
         "protein ranges shared by the genes of a record (identical [s,e) in different genes, also for different profiles), 10% of "
@@ -858,7 +919,7 @@ def gen_case(rng, table):
             gene = gen_gene(rng)
             if feature_ok(gene.parts):
                 break
-        return 9, (gene.parts,) + gen_sections(rng, gene), gene
+        return section_args(9, gene.parts, gene.codons, *gen_sections(rng, gene)) + (gene,)
     if 0.61 <= r < 0.62:
         return gen_blo_case(rng)
     if r < 0.55:
@@ -887,7 +948,7 @@ def gen_case(rng, table):
             gene = gen_gene(rng)
             if feature_ok(gene.parts):
                 break
-        return 4, (gene.parts,) + gen_sections(rng, gene), gene
+        return section_args(4, gene.parts, gene.codons, *gen_sections(rng, gene)) + (gene,)
     if r < 0.92:
         while True:
             gene = gen_gene(rng)
@@ -904,19 +965,23 @@ def gen_case(rng, table):
 
 
 def gen_sections(rng, gene):
-    """ leader and tail lengths: mostly valid, with weight on section boundaries that fall on exon borders """
+    """ leader and tail lengths and the slack (codons of the location beyond leader + core + tail; 1 = the location ends
+        with the stop codon, as the RiPP modules build prepeptides): mostly valid, with weight on section boundaries that
+        fall on exon borders (with slack the core | tail boundary is drawn on a border as often as the end of the tail) """
     total = gene.codons
+    slack = rng.choice([0, 1, 1, 2])
     ll = rng.choice([0, 0, 1, rng.randint(0, total + 1)])
     tl = rng.choice([0, 0, 1, rng.randint(0, total + 1)])
     borders = exon_border_residues(gene)
     if borders and rng.random() < 0.3:
         ll = rng.choice(borders)
         if rng.random() < 0.5:
-            tl = total - rng.choice(borders)
+            tl = total - rng.choice(borders) - rng.choice([0, slack])
     if rng.random() < 0.8 and total >= 1:
-        ll = min(ll, total - 1)
-        tl = max(0, min(tl, total - 1 - ll))
-    return ll, tl
+        slack = min(slack, total - 1)
+        ll = min(ll, total - 1 - slack)
+        tl = max(0, min(tl, total - 1 - slack - ll))
+    return ll, max(0, tl), slack
 
 
 def gen_blo_case(rng):
@@ -1001,7 +1066,15 @@ def corpus():
     multi = [(0, 4, 1), (10, 15, 1)]
     multi_rev = [(10, 15, -1), (0, 4, -1)]
     slip = [(32, 43, 1), (42, 45, 1)]
+    stop = [(0, 33, 1)]     # 11 codons: LEAD + CORE + TL and the stop codon
     return [
+        # regression, finding prepeptide_tail_boundary_shifted_by_stop_codon (fixed): the core was [12:27] (15 bases for 4
+        # residues), the tail [27:33]; what is left (known, prepeptide_last_section_holds_stop_codon): the tail [24:33]
+        # holds the stop codon; without a tail the core does
+        (24, (stop, 4, 2, 1), Gene(stop, 40, "plain", 33)),
+        (29, (stop, 4, 2, 1), Gene(stop, 40, "plain", 33)),
+        (24, (stop, 4, 0, 1), Gene(stop, 40, "plain", 33)),
+        (24, ([(40, 52, -1), (20, 32, -1)], 0, 3, 1), Gene([(40, 52, -1), (20, 32, -1)], 60, "plain", 24)),
         (2, (span_fwd, False, False, 0, 2), Gene(span_fwd, 102, "spanning", 33)),
         (2, (span_rev, False, False, 0, 2), Gene(span_rev, 102, "spanning", 33)),
         (2, (span_fwd, False, False, 3, 8), Gene(span_fwd, 102, "spanning", 33)),
@@ -1127,6 +1200,56 @@ def judge_reread(chk, i, args, gene, verdict, report):
                ": leader/core/tail computed from the re-read prepeptide do not cover the nucleotides that encode them")
 
 
+def judge_slack(chk, i, fn, args, gene, verdict, report):
+    """ verdicts of the Gallina specifications on a prepeptide whose location holds `slack` codons beyond its sections.
+        fn 24: [strict, relaxed, gene class]; fn 29: [0, re-read location reads the gene's coding bases, strict and relaxed
+        specification of the sections of the re-read prepeptide, location identical, gene class] or [1, error, class].
+        The RELAXED specification (every section exact, the last one may also hold the trailing codons) failing is a
+        failure of the property; only the STRICT one failing with slack > 0 is the finding class CLASS_LAST """
+    parts, ll, tl, slack = args
+    shown = [ll, tl, slack]
+    if len(verdict) != (3 if fn == 24 else (3 if verdict[:1] == [1] else 6)):
+        chk.violation("broken-correspondence", "specification function did not decode its input",
+                      {"theorem_or_correspondence": "spec encoding", "function": FN_NAMES[fn]})
+        return
+    cls = verdict[-1]
+    if cls == 2 or not (0 <= ll and 0 <= tl and 0 <= slack and ll + tl + slack < gene.codons):
+        chk.count("spec_no_verdict(out of range or malformed gene)")
+        return
+    guard = cls == 0
+    finding = CLASS_SPANNING if cls == 1 else (CLASS_OVERLAP if cls == 3 else None)
+    where = "guard" if guard else "outside_guard"
+    theorem = "C09_prepeptide_slack" if fn == 24 else "C09_prepeptide_reread (with slack)"
+    if fn == 29:
+        if verdict[0] == 1:
+            chk.count(f"spec_fn29_{where}_FAILS")
+            report(i, fn, parts, shown, guard, finding, theorem,
+                   f": the prepeptide cannot be written and read back ({common.ERR_NAME.get(verdict[1], verdict[1])})")
+            return
+        _zero, ok_loc, strict, relaxed, same, _cls = verdict
+        if ok_loc:
+            chk.count("reread_location_identical" if same else "reread_location_equivalent(same bases in the same order, other parts)")
+        else:
+            chk.count(f"spec_fn29_{where}_FAILS")
+            report(i, fn, parts, shown, guard, finding, theorem,
+                   ": the location of the re-read prepeptide does not read the gene's coding bases in order")
+            return
+    else:
+        strict, relaxed, _cls = verdict
+    chk.count(f"spec_fn{fn}_{where}_{'ok' if relaxed else 'FAILS'}")
+    if not relaxed:
+        report(i, fn, parts, shown, guard, finding, theorem,
+               ": leader/core/tail do not cover the nucleotides that encode them (a section other than the last one is "
+               "not exact, or the last one does not start at its first residue)")
+    elif not strict:
+        chk.count(f"spec_fn{fn}_strict_FAILS(last section holds the trailing codons)")
+        # never inside a proved guard of the STRICT statement: C09_prepeptide_last_section_refuted
+        report(i, fn, parts, shown, False, CLASS_LAST if slack > 0 else None, "C09_prepeptide_last_section_refuted",
+               ": the last section also holds the codons of the location beyond leader + core + tail")
+    else:
+        chk.count(f"spec_fn{fn}_strict_ok")
+
+
 def run(chk):
     if not chk.build_and_audit():
         return chk.finish(RULE)
@@ -1174,6 +1297,8 @@ def run(chk):
             chk.count("partial_end_flags")
         if fn in (7, 8):
             chk.count(f"load_codon_start_{args[1] if args[1] >= 0 else 'absent'}")
+        if fn in (24, 29):
+            chk.count(f"prepeptide_slack_{args[3] if -1 <= args[3] <= 2 else 'other'}" + ("_from_a_caller" if origin else ""))
         chk.note_case(flat, len(gene.parts) > 1 or gene.strand == -1,
                       {"function": FN_NAMES[fn], "gene": fmt_parts(gene.parts), "record_length": gene.n,
                        "args": [a for a in args if not isinstance(a, list)],
@@ -1181,7 +1306,7 @@ def run(chk):
     model_outs = common.correspondence(chk, cases, impl_outs, spec_fn_offset=None, describe=describe)
 
     # ---- the specification evaluated on every implementation output (fn 2, 3, 4, 5)
-    judged = [i for i, (fn, _a, _g, _o) in enumerate(meta) if fn in (2, 4, 5, 7, 8, 9)]
+    judged = [i for i, (fn, _a, _g, _o) in enumerate(meta) if fn in (2, 4, 5, 7, 8, 9, 24, 29)]
     spec_cases = [[PROP, cases[i][1] + SPEC_OFFSET] + cases[i][2:] + impl_outs[i] for i in judged]
     # fn 3: class of the original gene, and the sub-location judged against the ADJUSTED gene
     cs_cases = []
@@ -1236,6 +1361,9 @@ def run(chk):
             continue
         if fn == 9:
             judge_reread(chk, i, args, gene, verdict, report)
+            continue
+        if fn in (24, 29):
+            judge_slack(chk, i, fn, args, gene, verdict, report)
             continue
         if len(verdict) != (3 if fn == 5 else 2):
             chk.violation("broken-correspondence", "specification function did not decode its input",
@@ -1353,6 +1481,14 @@ def replay(chk, path):
     if flat[1] in (2, 4, 5) and doc.get("implementation"):
         print("specification verdict [ok, class] on the recorded implementation output:",
               common.run_driver([[flat[0], flat[1] + SPEC_OFFSET] + flat[2:] + doc["implementation"]])[0])
+    if flat[1] == 24 and doc.get("implementation"):
+        print("specification verdict [strict (every section exact), relaxed (the last section may hold the trailing codons), "
+              "class] on the recorded implementation output:",
+              common.run_driver([[flat[0], 34] + flat[2:] + doc["implementation"]])[0])
+    if flat[1] == 29 and doc.get("implementation"):
+        print("specification verdict [0, re-read location reads the gene's coding bases, strict / relaxed specification of "
+              "the sections of the re-read prepeptide, location identical, class] (or [1, error, class]) on the recorded "
+              "implementation output:", common.run_driver([[flat[0], 39] + flat[2:] + doc["implementation"]])[0])
     if flat[1] == 9 and doc.get("implementation"):
         print("specification verdict [0, re-read location reads the gene's coding bases, sections of the re-read prepeptide ok, "
               "location identical, class] (or [1, error, class]) on the recorded implementation output:",
